@@ -315,7 +315,6 @@ impl RepositoryState {
     #[verifier::external_body] fn is_expired(&self) -> bool { unimplemented!() }
     #[verifier::external_body] fn best_before(&self) -> Option<DateTime<Utc>> { unimplemented!() }
 }
-#[verifier::external_body] pub struct Failed { _opaque: () }
 #[verifier::external_body] pub struct ReadRepository { _opaque: () }
 #[verifier::external_body] pub struct Repository { _opaque: () }
 impl Repository {
@@ -367,3 +366,133 @@ impl<'a> RepositoryUpdate<'a> {
             r matches Ok(true) ==> snapshot_installed(*old(self).path, notify.content.session_spec(), notify.content.serial_spec()),
     { unimplemented!() }
 }
+
+// ---- further API of the environment types that collector/rrdp/{base,update}.rs use (declared so
+// that a change of the extracted functions to one of them is verified rather than rejected)
+#[verifier::external_body] pub struct UriAndHash { _opaque: () }
+impl UriAndHash {
+    pub uninterp spec fn hash_spec(&self) -> RrdpHash;
+    #[verifier::external_body] pub fn uri(&self) -> (r: &Https) { unimplemented!() }
+    #[verifier::external_body] pub fn hash(&self) -> (r: RrdpHash) ensures r == self.hash_spec() { unimplemented!() }
+}
+impl NotificationFile {
+    #[verifier::external_body] pub fn snapshot(&self) -> (r: &UriAndHash) { unimplemented!() }
+    // sorts the delta list by serial; session and serial are untouched
+    #[verifier::external_body]
+    pub fn sort_deltas(&mut self)
+        ensures final(self).session_spec() == old(self).session_spec(), final(self).serial_spec() == old(self).serial_spec(),
+                final(self).deltas_spec().len() == old(self).deltas_spec().len(),
+    { unimplemented!() }
+    #[verifier::external_body] pub fn has_matching_origins(&self, uri: &Https) -> bool { unimplemented!() }
+}
+impl HttpResponse {
+    #[verifier::external_body] pub fn etag(&self) -> Option<Bytes> { unimplemented!() }
+    #[verifier::external_body] pub fn last_modified(&self) -> Option<DateTime<Utc>> { unimplemented!() }
+    #[verifier::external_body] pub fn content_length(&self) -> Option<u64> { unimplemented!() }
+}
+impl HttpClient {
+    #[verifier::external_body]
+    pub fn conditional_response(&self, uri: &Https, etag: Option<&Bytes>, last_modified: Option<DateTime<Utc>>)
+        -> (r: Result<HttpResponse, ReqwestError>)
+    { unimplemented!() }
+}
+impl Clone for Bytes {
+    #[verifier::external_body] fn clone(&self) -> (r: Self) ensures r == *self { unimplemented!() }
+}
+impl Clone for PathBuf {
+    #[verifier::external_body] fn clone(&self) -> (r: Self) ensures r == *self { unimplemented!() }
+}
+impl RrdpArchive {
+    #[verifier::external_body]
+    fn open(path: Arc<PathBuf>) -> (r: Result<RrdpArchive, RunFailed>)
+        ensures r matches Ok(a) ==> a.path_spec() == *path,
+    { unimplemented!() }
+    #[verifier::external_body]
+    fn load_object(&self, uri: &RsyncUri) -> (r: Result<Option<Bytes>, RunFailed>) { unimplemented!() }
+    // first write of the state record (a fresh archive); same effect on the model as update_state
+    #[verifier::external_body]
+    fn publish_state(&mut self, state: &RepositoryState) -> (r: Result<(), RunFailed>)
+        ensures
+            final(self).path_spec() == old(self).path_spec(),
+            final(self).objects() == old(self).objects(),
+            r is Ok ==> final(self).state() == *state
+                        && archive_committed(old(self).path_spec(), old(self).objects(), *state),
+    { unimplemented!() }
+}
+impl SnapshotRrdpArchive {
+    #[verifier::external_body] fn publish_object(&mut self, uri: &RsyncUri, content: &[u8]) -> Result<(), PublishError> { unimplemented!() }
+    #[verifier::external_body] fn publish_state(&mut self, state: &RepositoryState) -> Result<(), RunFailed> { unimplemented!() }
+    #[verifier::external_body] fn finalize(&mut self) -> Result<(), RunFailed> { unimplemented!() }
+}
+impl LogBookWriter {
+    #[verifier::external_body] pub fn new(process_prefix: Option<FmtArgs>) -> LogBookWriter { unimplemented!() }
+    #[verifier::external_body] pub fn error(&mut self, args: FmtArgs) { unimplemented!() }
+    #[verifier::external_body] pub fn trace(&mut self, args: FmtArgs) { unimplemented!() }
+    #[verifier::external_body] pub fn into_book(self) -> LogBook { unimplemented!() }
+}
+impl LogBook {
+    #[verifier::external_body] pub fn is_empty(&self) -> bool { unimplemented!() }
+}
+impl RepositoryState {
+    #[verifier::external_body] fn updated(&self) -> Option<DateTime<Utc>> { unimplemented!() }
+    #[verifier::external_body] fn last_modified(&self) -> Option<DateTime<Utc>> { unimplemented!() }
+}
+impl Repository {
+    #[verifier::external_body] fn read(&self) -> Result<Arc<ReadRepository>, RunFailed> { unimplemented!() }
+}
+impl RrdpRepositoryMetrics {
+    #[verifier::external_body]
+    fn new(notify_uri: Https) -> (r: RrdpRepositoryMetrics)
+        ensures r.notify_uri == notify_uri, r.session is None, r.serial is None, r.snapshot_reason is None,
+                r.payload_status is None, r.log_book is None,
+    { unimplemented!() }
+}
+impl StatusCode {
+    pub const NOT_FOUND: StatusCode = StatusCode(404);
+    #[verifier::external_body] pub fn is_success(&self) -> (r: bool) ensures r == (200 <= self.0 < 300) { unimplemented!() }
+    #[verifier::external_body] pub fn as_u16(&self) -> (r: u16) ensures r == self.0 { unimplemented!() }
+}
+
+// ---- std functions without a vstd specification (ASSUMED; their std definitions). Declared so
+// that a change of the code to one of these combinators is verified instead of rejected.
+pub assume_specification<T: Ord + core::marker::Destruct> [std::cmp::max] (a: T, b: T) -> (r: T)
+    ensures <T as vstd::std_specs::cmp::OrdSpec>::obeys_cmp_spec() ==> r == (if vstd::std_specs::cmp::OrdSpec::cmp_spec(&a, &b) == std::cmp::Ordering::Greater { a } else { b });
+pub assume_specification<T: Ord + core::marker::Destruct> [std::cmp::min] (a: T, b: T) -> (r: T)
+    ensures <T as vstd::std_specs::cmp::OrdSpec>::obeys_cmp_spec() ==> r == (if vstd::std_specs::cmp::OrdSpec::cmp_spec(&a, &b) == std::cmp::Ordering::Greater { b } else { a });
+pub assume_specification<T> [bool::then_some] (b: bool, t: T) -> (r: Option<T>)
+    ensures r == (if b { Some(t) } else { None::<T> });
+pub assume_specification<T, U> [Option::<T>::and] (a: Option<T>, b: Option<U>) -> (r: Option<U>)
+    ensures r == (if a is Some { b } else { None::<U> });
+pub assume_specification<T> [Option::<T>::or] (a: Option<T>, b: Option<T>) -> (r: Option<T>)
+    ensures r == (if a is Some { a } else { b });
+pub assume_specification<T> [Option::<T>::xor] (a: Option<T>, b: Option<T>) -> (r: Option<T>)
+    ensures r == (if a is Some && b is None { a } else if a is None && b is Some { b } else { None::<T> });
+pub assume_specification<T, U> [Option::<T>::zip] (a: Option<T>, b: Option<U>) -> (r: Option<(T, U)>)
+    ensures r == (if a is Some && b is Some { Some((a->Some_0, b->Some_0)) } else { None::<(T, U)> });
+pub assume_specification<T> [Option::<T>::replace] (a: &mut Option<T>, v: T) -> (r: Option<T>)
+    ensures r == *old(a), *final(a) == Some(v);
+pub assume_specification<T, F: FnOnce(T) -> bool> [Option::<T>::is_some_and] (a: Option<T>, f: F) -> (r: bool)
+    requires a is Some ==> f.requires((a->Some_0,)),
+    ensures a is None ==> !r, a is Some ==> f.ensures((a->Some_0,), r);
+pub assume_specification<T, U, F: FnOnce(T) -> U> [Option::<T>::map_or] (a: Option<T>, default: U, f: F) -> (r: U)
+    requires a is Some ==> f.requires((a->Some_0,)),
+    ensures a is None ==> r == default, a is Some ==> f.ensures((a->Some_0,), r);
+pub assume_specification<T, P: FnOnce(&T) -> bool> [Option::<T>::filter] (a: Option<T>, p: P) -> (r: Option<T>)
+    requires a is Some ==> p.requires((&a->Some_0,)),
+    ensures a is None ==> r is None, r is Some ==> r == a,
+            a is Some ==> (p.ensures((&a->Some_0,), true) ==> r == a) && (p.ensures((&a->Some_0,), false) ==> r is None);
+pub assume_specification<T, E, U, F: FnOnce(T) -> Result<U, E>> [Result::<T, E>::and_then] (a: Result<T, E>, f: F) -> (r: Result<U, E>)
+    requires a is Ok ==> f.requires((a->Ok_0,)),
+    ensures a is Err ==> r == Err::<U, E>(a->Err_0), a is Ok ==> f.ensures((a->Ok_0,), r);
+pub assume_specification<T, E, U> [Result::<T, E>::and] (a: Result<T, E>, b: Result<U, E>) -> (r: Result<U, E>)
+    ensures r == (if a is Ok { b } else { Err::<U, E>(a->Err_0) });
+pub assume_specification<T, E, F> [Result::<T, E>::or] (a: Result<T, E>, b: Result<T, F>) -> (r: Result<T, F>)
+    ensures r == (if a is Ok { Ok::<T, F>(a->Ok_0) } else { b });
+pub assume_specification<T, E, F: FnOnce(T) -> bool> [Result::<T, E>::is_ok_and] (a: Result<T, E>, f: F) -> (r: bool)
+    requires a is Ok ==> f.requires((a->Ok_0,)),
+    ensures a is Err ==> !r, a is Ok ==> f.ensures((a->Ok_0,), r);
+pub assume_specification<T, E> [Result::<T, E>::unwrap_or] (a: Result<T, E>, default: T) -> (r: T)
+    ensures r == (if a is Ok { a->Ok_0 } else { default });
+pub assume_specification<T, E, F: FnOnce(E) -> T> [Result::<T, E>::unwrap_or_else] (a: Result<T, E>, f: F) -> (r: T)
+    requires a is Err ==> f.requires((a->Err_0,)),
+    ensures a is Ok ==> r == a->Ok_0, a is Err ==> f.ensures((a->Err_0,), r);
